@@ -70,7 +70,7 @@ COLUMN_RICH_JOIN = dict(COLUMN_PROFILE, top={"from": ["join"], "rel": ["base_ali
 COLUMN_RICH_DERIVED = dict(COLUMN_PROFILE, top={"from": ["join"], "rel": ["derived"], "nitems": [2], "colref_style": ["qual"]})
 COLUMN_RICH_CTE = dict(COLUMN_PROFILE, top={"query": ["with"], "from": ["join"], "rel": ["cte_alias", "base_alias"], "nitems": [2], "colref_style": ["qual"]})
 COLUMN_RICH_STAR = dict(COLUMN_PROFILE, top={"from": ["join"], "rel": ["derived"], "nitems": [2], "items": ["qstar"], "colref_style": ["qual"]})
-COLUMN_LCA = dict(COLUMN_PROFILE, items=COLUMN_PROFILE["items"] + ["lca"], top={"nitems": [2], "items": ["lca"]})
+COLUMN_LCA = dict(COLUMN_PROFILE, items=COLUMN_PROFILE["items"] + ["lca"], top={"nitems": [2], "items": ["lca"]}, alias_as_colname=True)
 COLUMN_RICH_SETOP = dict(COLUMN_PROFILE, top={"query": ["union"], "rel": ["derived"], "colref_style": ["qual"]})
 CENTRES = {"setop": COLUMN_RICH_SETOP, "simple": COLUMN_PROFILE, "join": COLUMN_RICH_JOIN, "derived": COLUMN_RICH_DERIVED, "cte": COLUMN_RICH_CTE, "star": COLUMN_RICH_STAR}
 
@@ -250,6 +250,9 @@ def gen_colref(ctx: Ctx, rels, path: str):
     name = usable[0] if usable else f"c{ctx.nc}"
     if not usable and ctx.p.get("colname_reuse") and ctx.nc > 1 and ctx.ch.choose(f"{path}.colname_reuse", 2) == 1:
         name = "c1"  # the same column name in another place: identity-by-name is exactly where this matters
+    earlier = getattr(ctx, "earlier_branch_aliases", None)
+    if not usable and earlier and ctx.p.get("alias_as_colname") and ctx.ch.choose(f"{path}.alias_colname", 2) == 1:
+        name = earlier[0]  # a column named like a select alias of an EARLIER branch of the set operation: an alias is local to its branch
     if style == "fullqual":  # schema.table.column where the relation is an unaliased schema-qualified table
         if r["k"] == "base" and r["t"]["s"] and not r["alias"]:
             qual = f"{r['t']['s']}.{r['t']['n']}"
@@ -368,6 +371,7 @@ def gen_query(ctx: Ctx, depth: int, path: str, kinds_filter=None):
                 b[0]["items"] = [{"e": gen_colref(ctx, f0["rels"], path + ".b[0].destar"), "alias": None}]
                 star = False
         ops = ["UNION ALL"] if k in ("union", "union_paren") else ["UNION", "UNION ALL"]
+        ctx.earlier_branch_aliases = [it["alias"] for it in b[0]["items"] if it["alias"]]
         for i in range(1, len(ops) + 1):
             if star:
                 nb = {"items": [{"e": ["star", None], "alias": None}],
@@ -375,6 +379,7 @@ def gen_query(ctx: Ctx, depth: int, path: str, kinds_filter=None):
             else:
                 nb = gen_select(ctx, depth, f"{path}.b[{i}]", arity=len(b[0]["items"]), no_star=True)
             b.append(nb)
+        ctx.earlier_branch_aliases = None
         q = {"ctes": [], "branches": b, "ops": ops}
         if k == "union_paren":
             q["paren"] = True  # every branch written in parentheses
